@@ -100,3 +100,11 @@ pub fn slices_by_char_index(s: &str) -> &str {
     }
     &s[pos..]
 }
+
+/// C16 positive control: the result depends on whether the argument is borrowed or owned.
+pub fn by_representation(s: std::borrow::Cow<'_, str>) -> usize {
+    match s {
+        std::borrow::Cow::Borrowed(b) => b.len(),
+        std::borrow::Cow::Owned(o) => o.len() + 1,
+    }
+}
